@@ -596,29 +596,37 @@ def _thread_result_tests(fd, log):
         if not t or "cond" not in t or t.get("kind") not in ("IfStmt", "ConditionalOperator") or len(J["succs"]) != 2 or None in J["succs"]:
             continue
         cnode = t["cond"]
-        # the block that evaluates the last operand of `a || b` / `a && b` carries the whole expression as its condition
+        # The statement's condition may wrap the tested result: `!(a || helper ())`.  On the path that evaluates the
+        # helper the earlier operands did not decide, so the last operand decides - negated once per `!` around it.
         k = 0
-        while cnode is not None and cnode >= 0 and k < 10:
+        outer_neg = False
+        wrappers = set()
+        while cnode is not None and cnode >= 0 and k < 12:
             k += 1
             ce = exprs[cnode]
             if ce["k"] in ("cast", "paren") and ce.get("c"):
+                wrappers.add(cnode)
                 cnode = ce["c"][0]
             elif ce["k"] == "call" and ce.get("callee") == "__builtin_expect" and ce.get("c"):
+                wrappers.add(cnode)
                 cnode = ce["c"][0]
-            elif ce["k"] == "bin" and ce["op"] in ("||", "&&"):
-                right = set()
-                subtree(ce["c"][1], right)
-                if J["elems"] and all(i in right for i in J["elems"]):
-                    cnode = ce["c"][1]
-                else:
-                    break
+            elif ce["k"] == "un" and ce.get("op") == "!" and ce.get("c") and \
+                    exprs[_strip(fd, ce["c"][0])]["k"] == "bin" and exprs[_strip(fd, ce["c"][0])].get("op") in ("||", "&&"):
+                wrappers.add(cnode)
+                outer_neg = not outer_neg
+                cnode = ce["c"][0]
+            elif ce["k"] == "bin" and ce.get("op") in ("||", "&&"):
+                wrappers.add(cnode)
+                cnode = ce["c"][1]
             else:
                 break
         pl = polarity(cnode)
         if pl is None:
             continue
         did, pos = pl
-        own = set()
+        if outer_neg:
+            pos = not pos
+        own = set(wrappers)
         subtree(cnode, own)
         if any(i not in own for i in J["elems"]):
             continue
